@@ -78,3 +78,18 @@ Qed.
 
 Theorem run_seq_app : forall d s1 s2, run_seq d (s1 ++ s2) = run_seq d s1 ++ run_seq d s2.
 Proof. intros. unfold run_seq. apply map_app. Qed.
+
+(* for every sequence of messages received on one wrapped stream, each successfully received
+   message -- the first as well as every later one -- is treated as by the unary interceptor,
+   and a message whose RecvMsg failed is left alone *)
+Theorem stream_session_per_message : forall d rs i ok t v,
+  nth_error rs i = Some (ok, t, v) ->
+  nth_error (stream_session d rs) i = Some (if ok then unary_msg d t v else v).
+Proof.
+  intros d rs. unfold stream_session. induction rs as [|r rs IH]; intros [|i] ok t v H; cbn in *; try discriminate.
+  - inversion H. reflexivity.
+  - apply IH. exact H.
+Qed.
+
+Theorem stream_session_length : forall d rs, List.length (stream_session d rs) = List.length rs.
+Proof. intros. unfold stream_session. apply map_length. Qed.
